@@ -55,11 +55,26 @@ class ValidDispatchRejected(Exception):
         self.history = history
 
 
-def mk(jobs, model, flt=None, poke=None):
+ALL_QUERIES = ["current_time", "available_operations", "raw_ready_operations", "unscheduled_operations",
+               "scheduled_operations", "available_machines", "available_jobs", "completed_operations",
+               "uncompleted_operations", "ongoing_operations"]
+
+
+def mk(jobs, model, flt=None, poke=None, prelude=None):
     """real dispatcher brought to the model's state by replaying its history; `poke`
-    (optional) is called with the dispatcher before every dispatch to issue queries"""
+    (optional) is called with the dispatcher before every dispatch to issue queries.
+    `prelude` (a random.Random): the dispatcher is a REUSED one -- it first lives through another, random
+    episode in which every query is asked after every dispatch, and is then reset (C05/C12: what was asked or
+    done before a reset must not show afterwards)"""
     inst = build_instance(jobs)
     d = Dispatcher(inst, ready_operations_filter=flt)
+    if prelude is not None:
+        other = random_history(jobs, prelude, prelude.randint(1, max(1, sum(len(j) for j in jobs))))
+        for (j, m) in other.history:
+            d.dispatch(inst.jobs[j][d.job_next_operation_index[j]], m)
+            for qn in ALL_QUERIES:
+                getattr(d, qn)()
+        d.reset()
     for step, (j, m) in enumerate(model.history):
         if poke is not None:
             poke(d, inst)
@@ -243,8 +258,9 @@ def run_C05(tier, seed):
                 continue
             flt = FILTERS.get(flt_name)
             for model in histories(jobs, cap // 2, rng):
+                reused = rng.random() < 0.4
                 try:
-                    inst, d = mk(jobs, model, flt)
+                    inst, d = mk(jobs, model, flt, prelude=random.Random(rng.random()) if reused else None)
                 except ValidDispatchRejected as e:
                     res.breach("valid-dispatch-accepted", str(e), jobs=jobs, history=e.history, filter=flt_name)
                     continue
@@ -301,8 +317,10 @@ def run_C05(tier, seed):
                                    f"{qn}() = {sorted(got) if isinstance(got, set) else got}"
                                    f"{' with duplicates' if dup else ''}, recomputation gives "
                                    f"{sorted(want[qn]) if isinstance(want[qn], set) else want[qn]} "
-                                   f"(query sequence issued in this state: {order})",
-                                   jobs=jobs, history=model.history, filter=flt_name, queries=order)
+                                   f"(query sequence issued in this state: {order})"
+                                   + (" on a dispatcher REUSED after another episode (all queries asked after every "
+                                      "dispatch) and reset()" if reused else ""),
+                                   jobs=jobs, history=model.history, filter=flt_name, queries=order, reused=reused)
                         break
                 # point queries
                 res.count("point-queries")
